@@ -62,11 +62,14 @@ REG["C16"] = {
 
 REG["C05"] = {
     "thorough_extra": ["replay"],
+    "kani_units": ["c05_exitstatus"],
     "units": ["validate"],
     "scope": "TestCase::validate: wrong exit code => Err(InvalidExitCode{actual, expected}) regardless of output; Ok => exit status is Code(expected) "
              "(0 when none written) [or Detached, which the reporting sites filter out] AND the configured stream (stderr iff output_stream==stderr, else stdout) "
              "is in the expectation language (via the C01 contract of DiffTool::diff); code ok && deterministic && accepted => Ok (via the C03 contract). "
-             "The From<&OutputStream> for &[u8] conversion is verified to return the stream's bytes.",
+             "The From<&OutputStream> for &[u8] conversion is verified to return the stream's bytes. "
+             "Engine KX: `impl From<subprocess::ExitStatus> for ExitStatus` (extracted with scrut's ExitStatus enum, real subprocess crate as dependency): "
+             "Exited(c) -> Code(c as i32), Other(c) -> Code(c), Signaled/Undetermined -> Unknown, for all payloads (loop-free, full domain).",
     "assumptions": DIFF_TRUST + [
         "contracts of DiffTool::new/diff and Diff::has_differences are imported from unit diff (proved there by the C01/C02/C03 checks), used here as external_body",
         "R16: `E.map_err(F)?` desugared to match/return; R8: anyhow!(..) replaced by an opaque error value",
@@ -74,7 +77,7 @@ REG["C05"] = {
         "Detached outputs validate as today (update.rs validates them); bin/commands/test.rs filters Detached before validate — textual anchor only",
     ],
     "not_decided": ["that the executor hands validate the output of *this* test case", "that bin/commands/test.rs counts Err as failed and Timeout before validate",
-                    "impl From<subprocess::ExitStatus> for ExitStatus (Signaled/Undetermined -> Unknown): Kani harness, thorough tier (pending)"],
+                    ],
     "callsites": [("src/bin/commands/test.rs", "if output.exit_code == ExitStatus::Detached { count_detached += 1; continue; }")],
 }
 
